@@ -96,6 +96,89 @@ FAMILIES = {
     },
 }
 
+
+ATTR_VALS_JSON = [{'val': v, 'dom': '', 'nul': 'n'} for v in
+                  ['n', 'b:true', 'b:false', 'i:5', 'i:0', 'd:1.5', 's:txt', 's:two words', 'l:[i:1,s:x]', 'm:{s:k=i:1}']]
+ALL_OPS_NOT_XOR = LOGIC_BIN - {'XOR'}
+
+
+def fmt_families(fmt, ops, attr_vals=None, star=False, abstract=True, extra=None):
+    """The round-trip families of one format: trees, constraints, decorations, all filtered
+    by the format's fragment (InFrag) inside the generator."""
+    fams = {
+        fmt + '-Tree': {
+            'quick':    dict(consts=dict(N=5, MaxKids=3, MinHi=0, AllowStar=False, Fmt=fmt), invariants=tlc.GEN_INVARIANTS),
+            'thorough': dict(consts=dict(N=6, MaxKids=4, MinHi=0, AllowStar=False, Fmt=fmt), invariants=tlc.GEN_INVARIANTS),
+        },
+        fmt + '-Ctc': {
+            'quick':    dict(consts=dict(N=3, MaxKids=2, MinHi=1, Axes={'ctc'}, MaxCtc=1, CtcDepth=1, CtcBinOps=ops, Fmt=fmt),
+                             invariants=tlc.GEN_INVARIANTS),
+            'thorough': dict(consts=dict(N=4, MaxKids=3, MinHi=1, Axes={'ctc'}, MaxCtc=1, CtcDepth=1, CtcBinOps=ops, Fmt=fmt),
+                             invariants=tlc.GEN_INVARIANTS),
+        },
+        fmt + '-Ctc2': {   # nesting: all trees of depth 2 over two names
+            'quick':    dict(consts=dict(N=2, MaxKids=1, MinHi=1, Axes={'ctc'}, MaxCtc=1, CtcDepth=2, CtcBinOps=ops, Fmt=fmt,
+                                         CtcMinFeatures=2),
+                             invariants=tlc.GEN_INVARIANTS),
+            'thorough': dict(consts=dict(N=2, MaxKids=1, MinHi=1, Axes={'ctc'}, MaxCtc=2, CtcDepth=2,
+                                         CtcBinOps=ops, Fmt=fmt, CtcMinFeatures=2),
+                             invariants=tlc.GEN_INVARIANTS, simulate=dict(num=4000, depth=4)),
+        },
+    }
+    if star:
+        fams[fmt + '-Star'] = {
+            'quick':    dict(consts=dict(N=4, MaxKids=3, MinHi=1, AllowStar=True, Fmt=fmt), invariants=tlc.GEN_INVARIANTS),
+            'thorough': dict(consts=dict(N=5, MaxKids=3, MinHi=1, AllowStar=True, Fmt=fmt), invariants=tlc.GEN_INVARIANTS),
+        }
+    if abstract:
+        fams[fmt + '-Abs'] = {
+            'quick':    dict(consts=dict(N=4, MaxKids=3, MinHi=1, Axes={'abs'}, Fmt=fmt), invariants=tlc.GEN_INVARIANTS),
+            'thorough': dict(consts=dict(N=5, MaxKids=3, MinHi=1, Axes={'abs'}, Fmt=fmt), invariants=tlc.GEN_INVARIANTS),
+        }
+    if attr_vals:
+        fams[fmt + '-Attr'] = {
+            'quick':    dict(consts=dict(N=2, MaxKids=1, MinHi=1, Axes={'attr'}, AttrNames=['a1'], AttrVals=attr_vals, Fmt=fmt),
+                             invariants=tlc.GEN_INVARIANTS),
+            'thorough': dict(consts=dict(N=3, MaxKids=2, MinHi=1, Axes={'attr'}, AttrNames=['a1', 'a2'], AttrVals=attr_vals, Fmt=fmt),
+                             invariants=tlc.GEN_INVARIANTS, simulate=dict(num=3000, depth=8)),
+        }
+    if extra:
+        fams.update(extra)
+    return fams
+
+
+FAMILIES.update(fmt_families('json', LOGIC_BIN, ATTR_VALS_JSON))
+FAMILIES.update(fmt_families('glencoe', LOGIC_BIN, None, abstract=False))
+FAMILIES.update(fmt_families('fide', ALL_OPS_NOT_XOR, None))
+ATTR_VALS_AFM = [{'val': 's:3', 'dom': 'R:i:1..i:5|E:', 'nul': 's:0'},
+                 {'val': 's:2', 'dom': 'R:i:0..i:2;i:7..i:9|E:', 'nul': 's:1'},
+                 {'val': 's:lo', 'dom': 'R:|E:s:lo,s:hi,s:mid', 'nul': 's:hi'},
+                 {'val': 's:1', 'dom': 'R:|E:s:1,s:2', 'nul': 's:2'}]
+FAMILIES.update(fmt_families('afm', ALL_OPS_NOT_XOR, ATTR_VALS_AFM, abstract=False))
+ATTR_VALS_UVL = [{'val': v, 'dom': '', 'nul': 'n'} for v in
+                 ['n', 'b:true', 'b:false', 'i:5', 'i:0', 'd:1.5', 's:txt', 's:two words', 'l:[i:1,i:2]', 'l:[s:x,d:2.5]',
+                  'm:{s:k=i:1}', 'm:{s:k=m:{s:j=s:v}}']]
+FAMILIES.update(fmt_families('uvl', ALL_OPS_NOT_XOR, ATTR_VALS_UVL, star=True, extra={
+    'uvl-Type': {
+        'quick':    dict(consts=dict(N=3, MaxKids=2, MinHi=1, Axes={'type'}, Types={'Integer', 'Real', 'String'}, Fmt='uvl'),
+                         invariants=tlc.GEN_INVARIANTS),
+        'thorough': dict(consts=dict(N=4, MaxKids=3, MinHi=1, Axes={'type'}, Types={'Integer', 'Real', 'String'}, Fmt='uvl'),
+                         invariants=tlc.GEN_INVARIANTS),
+    },
+    'uvl-FCard': {
+        'quick':    dict(consts=dict(N=3, MaxKids=2, MinHi=1, Axes={'fcard'}, FCards={(0, 1), (2, 3), (1, -1), (2, 2)}, Fmt='uvl'),
+                         invariants=tlc.GEN_INVARIANTS),
+        'thorough': dict(consts=dict(N=4, MaxKids=3, MinHi=1, Axes={'fcard'}, FCards={(0, 1), (2, 3), (1, -1), (2, 2)}, Fmt='uvl'),
+                         invariants=tlc.GEN_INVARIANTS),
+    },
+    'uvl-Arith': {
+        'quick':    dict(consts=dict(N=2, MaxKids=1, MinHi=1, Axes={'ctc'}, MaxCtc=1, CtcDepth=0, CtcBinOps=set(), CtcArith=True,
+                                     CtcMinFeatures=2, Fmt='uvl'), invariants=tlc.GEN_INVARIANTS),
+        'thorough': dict(consts=dict(N=3, MaxKids=2, MinHi=1, Axes={'ctc'}, MaxCtc=1, CtcDepth=0, CtcBinOps=set(), CtcArith=True,
+                                     CtcMinFeatures=3, Fmt='uvl'), invariants=tlc.GEN_INVARIANTS),
+    },
+}))
+
 _cache = {}
 
 
@@ -104,6 +187,8 @@ def generate(fam, tier, seed, workdir):
     if key in _cache:
         return _cache[key]
     spec = FAMILIES[fam][tier]
+    if spec['consts'].get('Fmt'):
+        spec = dict(spec, emit_all=False)
     cases, st = tlc.run_generator(workdir, spec['consts'], module=spec.get('module', 'FM'),
                                   defaults=spec.get('defaults', True), invariants=spec.get('invariants', ()),
                                   simulate=spec.get('simulate'), seed=seed,
